@@ -88,7 +88,7 @@ Lemma diagnostics_in_bounds : forall t cfg f ks ds d,
   in_document t (d_range d).
 Proof.
   intros t cfg f ks ds d Hval H Hin.
-  apply diagnose_file_some in H. destruct H as [_ [_ ->]].
+  apply (in_diagnose_file _ _ _ _ _ d H) in Hin.
   apply in_check_file in Hin. destruct Hin as [k [e [Hk [He [_ [_ [_ ->]]]]]]].
   unfold mk_diag. cbn [d_range]. apply translate_in_bounds. exact (Hval k e Hk He).
 Qed.
@@ -101,7 +101,7 @@ Proof. intros [|]; vm_compute; tauto. Qed.
 Definition diag_of_error (t : text) (cfg : config) (pe : parse_error) : diag :=
   {| d_code := code_of_kind (pe_doc pe); d_name := code_name (code_of_kind (pe_doc pe));
      d_range := translate_range t (pe_range pe); d_severity := get_severity cfg (code_of_kind (pe_doc pe));
-     d_msg := pe_msg pe |}.
+     d_msg := pe_msg pe; d_data := None |}.
 
 Lemma syntax_errors_all_reported : forall t cfg f errs extra others pe,
   In pe errs ->
@@ -113,10 +113,10 @@ Lemma syntax_errors_all_reported : forall t cfg f errs extra others pe,
              In (diag_of_error t cfg pe) ds.
 Proof.
   intros t cfg f errs extra others pe Hin Hen Hws Hon Hsup.
-  exists (check_file (translate_range t) cfg f (syntax_error_checker errs extra :: others)). split.
+  exists (get_diagnostics (check_file (translate_range t) cfg f (syntax_error_checker errs extra :: others))). split.
   - unfold diagnose_file. rewrite Hen. cbn [negb].
     destruct Hws as [-> | ->]; [reflexivity|]. rewrite N.eqb_refl. reflexivity.
-  - apply in_check_file. exists (syntax_error_checker errs extra), (emit_of_error pe).
+  - apply in_get_diagnostics. apply in_check_file. exists (syntax_error_checker errs extra), (emit_of_error pe).
     split; [left; reflexivity|]. split.
     + cbn [syntax_error_checker k_body]. apply in_or_app. left. apply in_map. exact Hin.
     + split.
@@ -139,13 +139,14 @@ Proof.
   destruct (g a); [cbn [app]; f_equal; exact IH|exact IH].
 Qed.
 
-(** exactly one diagnostic per parse error, in order, ahead of everything else, when both codes are on *)
+(** one diagnostic per parse error, in order, ahead of everything else, when both codes are on: the result is
+    the de-duplication ([get_diagnostics]) of that list *)
 Lemma syntax_errors_one_each : forall t cfg f errs extra others ds,
   diagnose_file (translate_range t) cfg f (syntax_error_checker errs extra :: others) = Some ds ->
   is_checker_enable_by_code cfg f C_SyntaxError = true ->
   is_checker_enable_by_code cfg f C_DocSyntaxError = true ->
   (forall pe, In pe errs -> f_suppressed f (code_of_kind (pe_doc pe)) (pe_range pe) = false) ->
-  exists rest, ds = map (diag_of_error t cfg) errs ++ rest.
+  exists rest, ds = get_diagnostics (map (diag_of_error t cfg) errs ++ rest).
 Proof.
   intros t cfg f errs extra others ds H Hs Hd Hsup.
   apply diagnose_file_some in H. destruct H as [_ [_ ->]].
@@ -154,10 +155,38 @@ Proof.
   { apply existsb_exists. exists C_SyntaxError. split; [exact (syntax_codes_listed false)|exact Hs]. }
   rewrite Hg. cbn [syntax_error_checker k_body]. rewrite filter_map_app.
   rewrite (filter_map_all _ _ (add_diagnostic (translate_range t) cfg f) (fun e => mk_diag (translate_range t) cfg e) (map emit_of_error errs)).
-  - rewrite map_map. rewrite <- app_assoc. eexists. f_equal.
+  - rewrite map_map. rewrite <- app_assoc. eexists. reflexivity.
   - intros e He. apply in_map_iff in He. destruct He as [pe [<- Hpe]].
     apply add_diagnostic_some. cbn [emit_of_error e_code e_range].
     split; [destruct (pe_doc pe); [exact Hd|exact Hs]|]. split; [exact (Hsup pe Hpe)|reflexivity].
+Qed.
+
+(** de-duplication keeps a duplicate-free prefix as it is *)
+Lemma dedup_acc_nodup_prefix : forall l1 l2 kept,
+  NoDup l1 -> (forall d, In d l1 -> ~ In d kept) ->
+  dedup_acc kept (l1 ++ l2) = l1 ++ dedup_acc (rev l1 ++ kept) l2.
+Proof.
+  induction l1 as [|x r IH]; intros l2 kept Hnd Hk; cbn [app rev dedup_acc]; [reflexivity|].
+  inversion Hnd as [|? ? Hx Hr]; subst.
+  destruct (in_dec diag_eq_dec x kept) as [Hin|_]; [exfalso; exact (Hk x (or_introl eq_refl) Hin)|].
+  f_equal. rewrite (IH l2 (x :: kept) Hr).
+  - rewrite <- app_assoc. reflexivity.
+  - intros d Hd [Heq|Hin]; [subst; contradiction|exact (Hk d (or_intror Hd) Hin)].
+Qed.
+
+Lemma syntax_errors_prefix : forall t cfg f errs extra others ds,
+  diagnose_file (translate_range t) cfg f (syntax_error_checker errs extra :: others) = Some ds ->
+  is_checker_enable_by_code cfg f C_SyntaxError = true ->
+  is_checker_enable_by_code cfg f C_DocSyntaxError = true ->
+  (forall pe, In pe errs -> f_suppressed f (code_of_kind (pe_doc pe)) (pe_range pe) = false) ->
+  NoDup (map (diag_of_error t cfg) errs) ->
+  exists rest, ds = map (diag_of_error t cfg) errs ++ rest.
+Proof.
+  intros t cfg f errs extra others ds H Hs Hd Hsup Hnd.
+  destruct (syntax_errors_one_each t cfg f errs extra others ds H Hs Hd Hsup) as [rest ->].
+  unfold get_diagnostics. destruct dedup_diagnostics.
+  - rewrite (dedup_acc_nodup_prefix _ rest [] Hnd); [eexists; reflexivity|intros d _ []].
+  - eexists; reflexivity.
 Qed.
 
 (** a parse error whose code is switched off produces no diagnostic (the "unless" of the statement) *)
@@ -211,7 +240,7 @@ Lemma codes_known : forall tr cfg f ks ds d,
   diagnose_file tr cfg f ks = Some ds -> In d ds ->
   d_name d = code_name (d_code d) /\ In (d_name d) (map code_name all_codes).
 Proof.
-  intros tr cfg f ks ds d H Hin. apply diagnose_file_some in H. destruct H as [_ [_ ->]].
+  intros tr cfg f ks ds d H Hin. apply (in_diagnose_file _ _ _ _ _ d H) in Hin.
   apply in_check_file in Hin. destruct Hin as [k [e [_ [_ [_ [_ [_ ->]]]]]]].
   unfold mk_diag. cbn [d_name d_code]. split; [reflexivity|]. apply in_map. apply all_codes_complete.
 Qed.
@@ -229,6 +258,7 @@ Qed.
 Definition ex_text : text := [97; 128512; 98; 32; 61; 32; 61; 32; 49; 13; 10; 45; 45; 45; 64; 116; 121; 112; 101].
 Definition ex_errs : list parse_error :=
   [ {| pe_doc := false; pe_range := (9, 10); pe_msg := [63] |};
+    {| pe_doc := false; pe_range := (9, 10); pe_msg := [63] |};   (* the parser recorded this error twice *)
     {| pe_doc := true; pe_range := (22, 22); pe_msg := [33] |} ].
 Definition ex_cfg : config :=
   {| cfg_enable := true; ws_disabled := []; ws_enabled := []; cfg_severity := []; cfg_globals := [];
